@@ -49,6 +49,32 @@ def d1_start_sequence(ctx, rm: REModel):
     wf = [n for n in A.walk_local(helper.node) if A.is_msg_yield(n, "wait_for")]
     ok = len(wf) == 1 and len(wf[0].value.args) >= 3 and A.norm(wf[0].value.args[2]).replace("\n", "").replace(" ", "") in ("[fut]", "[fut,]")
     ctx.ob("C11.D1-helper-plan-order", cname(helper, None, "waits for the suspender's future"), ok, "" if ok else "the helper does not wait for the release future", where=where(helper, helper.node))
+    # D5: the wait cannot be abandoned.  A message interrupted by a suspension / pause is only executed again if it was cached
+    # (rewinding on) or if the plan re-issues it.  The helper switches rewinding off first, so its wait_for must sit in a loop
+    # that re-issues it until the release - otherwise a second, overlapping suspension (its request cancels the await) ends the
+    # first one's wait: the plan runs on while the first suspender is still tripped.
+    pm = A.parents(helper.node)
+    for y in wf:
+        cmds_before = []
+        for n in A.walk_local(helper.node):
+            if isinstance(n, ast.Yield) and A.is_msg_yield(n) and n.lineno < y.lineno:
+                c = A.const_str(n.value.args[0])
+                if c == "rewindable":
+                    val = A.norm(n.value.args[2]) if len(n.value.args) >= 3 else "?"
+                    cmds_before.append(val)
+        uncached = bool(cmds_before) and cmds_before[-1] == "False"
+        in_loop = False
+        p = pm.get(y)
+        while p is not None and p is not helper.node:
+            if isinstance(p, (ast.While, ast.For)):
+                in_loop = True
+            p = pm.get(p)
+        ok5 = (not uncached) or in_loop
+        ctx.ob("C11.D5-wait-cannot-be-abandoned", cname(helper, None, "Msg('wait_for', [fut]) is replayable or re-issued"), ok5,
+               "" if ok5 else "the wait for the release is issued once, with rewinding switched off (not cached): a suspension or pause landing on it "
+               "(overlapping suspensions) abandons it, and the plan resumes when the LATER suspension is released although this one is still in effect",
+               nontrivial=True, where=where(helper, y))
+
     unpack = [s for s in ss.node.body if isinstance(s, ast.Assign) and A.norm(s.value) == "msg.args" and isinstance(s.targets[0], ast.Tuple)]
     ok = bool(unpack) and [A.norm(e) for e in unpack[0].targets[0].elts] == ["pre_plan", "post_plan", "justification", "fut"]
     ctx.ob("C11.D1-helper-plan-order", cname(ss, None, "pre/post plan, justification and future unpacked from the message"), ok, "" if ok else "argument order of the _start_suspender message changed", where=where(ss, ss.node))
@@ -145,7 +171,7 @@ def run(ctx):
 
 
 CLAIM = {
-    "text": "Decides the sequencing of a suspension: start handler order (record, stop devices, rewind, push helper), the helper plan's yield "
+    "text": "Decides (D5, failing today: F-16) that the helper's wait for the release cannot be abandoned by an overlapping interruption. Decides the sequencing of a suspension: start handler order (record, stop devices, rewind, push helper), the helper plan's yield "
             "order (non-rewindable pre-plan, wait on the suspender's future, resume, post-plan, restore rewindability, replay), agreement of "
             "the request's and the handler's argument order, that only the pause block or task completion release the caller, the "
             "suspend/restore pairing of monitors, and the suspender's request arguments and guards. Wall-clock behaviour and the ordering of "
